@@ -41,10 +41,13 @@ m = {
          "kind_free_text": "Verus 0.2026.09.13 (Z3) on single-file units woven from functions extracted mechanically from /repo on every run"},
         {"name": "kani", "path": "/verif/kani", "serves_properties": sorted(p for p in PROPS if any(PROPS[p].get("kani", {}).values())),
          "kind_free_text": "Kani 0.68 / CBMC 6.11 on a verbatim copy of /repo with harness modules appended under cfg(kani)"},
+        {"name": "native-bounded", "path": "/verif/native", "serves_properties": sorted(p for p in PROPS if PROPS[p].get("native_fallback") or PROPS[p].get("native_cex") or PROPS[p].get("native_thorough")),
+         "kind_free_text": "bounded native enumerations on a verbatim copy of /repo (cfg(test) modules appended): NOT a deciding engine - they replay a verifier's failed obligation as a concrete input, "
+                           "stand in (labelled bounded) when part of a unit could not be given to the verifier, and run as extra bounded checks in the thorough tier; never counted as proved"},
     ],
     "checks": checks,
     "not_applicable": na,
-    "notes": "All checks: exit 0 = every obligation discharged; exit 1 + VIOLATION line = an obligation that is discharged on the unchanged tree now fails; exit 2 = undecided (lost anchor / tool failure / resource limit), never an alarm. See DESIGN.md.",
+    "notes": "All checks: exit 0 = every obligation discharged; exit 1 + VIOLATION line = an obligation that is discharged on the unchanged tree now fails; exit 2 = undecided (lost anchor / tool failure / resource limit / a watched function that is not under contract has changed and the bounded stand-in found nothing), never an alarm. A VIOLATION whose obligation name ends in `_replay` comes from a bounded native stand-in (engine native-bounded in the replay file), not from a proof. See DESIGN.md section 0a.",
 }
 json.dump(m, open(os.path.join(ROOT, "MANIFEST.json"), "w"), indent=1)
 print("MANIFEST.json: %d checks, %d not applicable" % (len(checks), len(na)))
